@@ -295,23 +295,25 @@ def stepRules (s : Unit) (ts : List String) : Unit × String :=
     | some start, some pairs =>
       (s, match daoScriptSize start 0 pairs with | none => "ok" | some i => s!"dao-lock-size-mismatch {i}")
     | _, _ => (s, "bad-op")
-  | ["dh", hds, info, wit, cap] =>
+  | "dh" :: hds :: info :: wit :: cap :: rest =>
     -- one withdrawing DAO input (lock args 0, DAO type args 0, 8 data bytes) of capacity `cap`; header
-    -- id n stands for a header with number n and accumulated rate 10^16 + n * 10^12
+    -- id n stands for a header with number n and accumulated rate 10^16 + n * 10^12; an optional sixth
+    -- token lists the header ids the data loader does NOT know
     let w? : Option DaoWitness :=
       if wit = "m" then some .missing else if wit = "x" then some .notWitnessArgs
       else if wit = "b" then some .badInputType
       else if wit.startsWith "i" then (parseNat? (wit.drop 1).toString).map .index else none
-    match parseNatList? hds, (if info = "n" then some none else (parseNat? info).map some), w?, parseNat? cap with
-    | some hds, some info, some w, some cap =>
+    let miss? : Option (List Nat) := match rest with | [] => some [] | [l] => parseNatList? l | _ => none
+    match parseNatList? hds, (if info = "n" then some none else (parseNat? info).map some), w?, parseNat? cap, miss? with
+    | some hds, some info, some w, some cap, some miss =>
       let occ := (capBytes 8).bind fun dc => occupied ⟨cap, 0, some 0, 8⟩ dc
-      (s, match daoWithdraw hds id (fun n => 10000000000000000 + n * 1000000000000) info w cap occ with
+      (s, match daoWithdrawL (fun h => !miss.contains h) hds id (fun n => 10000000000000000 + n * 1000000000000) info w cap occ with
         | .error .invalidOutPoint => "invalid-out-point"
         | .error .invalidDaoFormat => "invalid-dao-format"
         | .error .invalidHeader => "invalid-header"
         | .ok none => "capacity-error"
         | .ok (some v) => s!"ok {v}")
-    | _, _, _, _ => (s, "bad-op")
+    | _, _, _, _, _ => (s, "bad-op")
   | ["ctx", ins, outs] =>
     match (splitList ins).mapM parseCtxIn?, parseNatList? outs with
     | some ins, some outs =>
